@@ -61,11 +61,27 @@ func (p *Program) Graph(fi *FuncInfo) *FG {
 	if fi == nil || fi.Decl.Body == nil {
 		return nil
 	}
-	return p.graphOf(fi.Pkg, fi.Name, fi.Decl.Body, fi.Decl.Type, fi.Decl.Recv)
+	if p.graphs == nil {
+		p.graphs = map[*ast.BlockStmt]*FG{}
+	}
+	if g, ok := p.graphs[fi.Decl.Body]; ok {
+		return g
+	}
+	g := p.graphOf(fi.Pkg, fi.Name, fi.Decl.Body, fi.Decl.Type, fi.Decl.Recv)
+	p.graphs[fi.Decl.Body] = g
+	return g
 }
 
 func (p *Program) GraphOfLit(pk *packages.Package, name string, lit *ast.FuncLit) *FG {
-	return p.graphOf(pk, name, lit.Body, lit.Type, nil)
+	if p.graphs == nil {
+		p.graphs = map[*ast.BlockStmt]*FG{}
+	}
+	if g, ok := p.graphs[lit.Body]; ok {
+		return g
+	}
+	g := p.graphOf(pk, name, lit.Body, lit.Type, nil)
+	p.graphs[lit.Body] = g
+	return g
 }
 
 func (p *Program) graphOf(pk *packages.Package, name string, body *ast.BlockStmt, ft *ast.FuncType, recv *ast.FieldList) *FG {
@@ -114,6 +130,7 @@ func inspectNoLit(n ast.Node, f func(ast.Node) bool) {
 type Cond struct {
 	Expr ast.Expr
 	Tag  ast.Expr
+	Alts []ast.Expr // non-nil: disjunction over a multi-value case list (Tag == any of Alts, or any of Alts true)
 }
 
 // BranchCond returns the condition controlling b's two successors
@@ -339,8 +356,17 @@ type Guard struct {
 }
 
 // Guards returns every (condition, polarity) whose edge lies on all paths from entry to l.
+// For a multi-value case list `case a, b:` none of the single edges is required; the
+// disjunction is returned as one guard with Cond.Alts set.
 func (g *FG) Guards(l Loc) []Guard {
 	var out []Guard
+	type edge struct {
+		b   *cfg.Block
+		idx int
+	}
+	byClause := map[*ast.CaseClause][]edge{}
+	clauseTag := map[*ast.CaseClause]ast.Expr{}
+	clauseFirst := map[*ast.CaseClause]*cfg.Block{}
 	for _, b := range g.Blocks {
 		c := g.BranchCond(b)
 		if c == nil || b.Succs[0] == b.Succs[1] {
@@ -348,15 +374,62 @@ func (g *FG) Guards(l Loc) []Guard {
 		}
 		for pol := 0; pol < 2; pol++ {
 			// remove edge b->Succs[pol]; if l becomes unreachable, that edge is required
-			if !g.reachableWithoutEdge(b, pol, l) {
+			if !g.reachableWithoutEdges(map[*cfg.Block]int{b: pol}, l) {
 				out = append(out, Guard{Cond: c, Pol: pol == 0, From: b})
 			}
+		}
+		if sw, ok := g.caseOf[c.Expr]; ok {
+			if cc, ok := b.Succs[0].Stmt.(*ast.CaseClause); ok && len(cc.List) > 1 {
+				byClause[cc] = append(byClause[cc], edge{b, 0})
+				clauseTag[cc] = sw.Tag
+				if clauseFirst[cc] == nil {
+					clauseFirst[cc] = b
+				}
+			}
+		}
+	}
+	for cc, edges := range byClause {
+		rm := map[*cfg.Block]int{}
+		for _, e := range edges {
+			rm[e.b] = e.idx
+		}
+		if len(edges) == len(cc.List) && !g.reachableWithoutEdges(rm, l) {
+			out = append(out, Guard{Cond: &Cond{Expr: cc.List[0], Tag: clauseTag[cc], Alts: cc.List}, Pol: true, From: clauseFirst[cc]})
 		}
 	}
 	return out
 }
 
 func (g *FG) reachableWithoutEdge(eb *cfg.Block, succIdx int, target Loc) bool {
+	return g.reachableWithoutEdges(map[*cfg.Block]int{eb: succIdx}, target)
+}
+
+func (g *FG) reachableWithoutEdges(removed map[*cfg.Block]int, target Loc) bool {
+	seen := map[*cfg.Block]bool{}
+	var stack []*cfg.Block
+	entry := g.Blocks[0]
+	stack = append(stack, entry)
+	seen[entry] = true
+	for len(stack) > 0 {
+		b := stack[len(stack)-1]
+		stack = stack[:len(stack)-1]
+		if b == target.B {
+			return true
+		}
+		for i, s := range b.Succs {
+			if ri, ok := removed[b]; ok && ri == i {
+				continue
+			}
+			if !seen[s] {
+				seen[s] = true
+				stack = append(stack, s)
+			}
+		}
+	}
+	return false
+}
+
+func (g *FG) reachableWithoutEdgeOld(eb *cfg.Block, succIdx int, target Loc) bool {
 	seen := map[*cfg.Block]bool{}
 	var stack []*cfg.Block
 	entry := g.Blocks[0]
